@@ -305,7 +305,7 @@ def c01(W, replay=None):
         scen += random_histories(W, 600 if thorough else 60, faults=True)
         scen += parallel_family(W, 200 if thorough else 20)
         scen += [x for x in family(W, "C15", "quick") if "/body/" in x["id"]]        # odd token-endpoint bodies (C01 rule for them)
-        scen += [x for x in timeout_system_scenarios(W)] + decoy_family(W) + after_deny_family(W) + replica_family(W) + env_std(W) + subsecond_family(W)
+        scen += [x for x in timeout_system_scenarios(W)] + decoy_family(W) + after_deny_family(W) + replica_family(W) + env_std(W) + debug_family(W) + subsecond_family(W)
     return sys_pipeline("C01", W, scen, None, [
         "the ID-token expiry and signature ground truth comes from the simulated identity provider",
         "one check runs at a time between gates (store, token endpoint, key lookup); real parallelism inside a store call is C12's subject",
@@ -516,6 +516,25 @@ def envelope_family(W, base, n):
     return sample(W, out, n)
 
 
+def debug_family(W, n=None):
+    """Scenarios run with log_level debug and the logging unit set up as cmd/main.go does (loggers are real, every log argument
+    is formatted, main's "config-log" step dumps the configuration): logging must not change what the service does."""
+    if n is None:
+        n = 1200 if W.tier == "thorough" else 100
+    key = "_env_base"
+    if not hasattr(W, key):
+        setattr(W, key, family(W, "C05", "quick") + family(W, "C11", "quick") + family(W, "C03", "quick"))
+    out = []
+    for sc in sample(W, getattr(W, key) + family(W, "C04", "quick"), n):
+        v = json.loads(json.dumps(sc))
+        v["id"] = sc["id"] + "/debug"
+        v["cfg"]["logLevel"] = "debug"
+        for st in v["steps"]:
+            st.pop("expect", None)
+        out.append(v)
+    return out
+
+
 def env_std(W, n=None):
     """The standard envelope family: presented-id histories (C05), refresh policies (C11) and compliant logins (C03) under envelopes."""
     if n is None:
@@ -690,7 +709,7 @@ def c09(W, replay=None):
                     if stname == "redis":
                         scen += redis_cmd_variants(sc)
         scen += logout_histories(W, 300 if thorough else 40)
-        scen += discovery_family(W) + dup_chain_family(W) + decoy_family(W) + held_call_family(W) + replica_family(W) + env_std(W)
+        scen += discovery_family(W) + dup_chain_family(W) + decoy_family(W) + held_call_family(W) + replica_family(W) + env_std(W) + debug_family(W)
     return sys_pipeline("C09", W, scen, None, [
         "interleavings are at store-call / token-endpoint-call / key-lookup granularity (the gates of the harness)",
         "a check whose last store access preceded the logout's removal and which is answered later is treated as an answer delayed in the network",
@@ -897,7 +916,7 @@ def c03(W, replay=None):
         bad = cfg_text("BSpec", dict(consts, NoExpiresInMeansExpired="TRUE"), ["OnePass", "NotStuck"], extra="PROPERTY LoginEnds\n")
         out, viol = W.tlc_exhaustive("AuthFlowBrowser", bad, "c03-design-defect", workers=4, timeout=1200, expect_violation=True)
         log("[design] with 'no expires_in means expired' the browser model %s OnePass / LoginEnds" % ("VIOLATES" if viol else "satisfies"))
-    scen = [] if replay else family(W, "C03") + same_client_family(W) + [x for x in discovery_family(W) if "pkce" not in x["id"] and "noMethods" not in x["id"]] + env_std(W)
+    scen = [] if replay else family(W, "C03") + same_client_family(W) + [x for x in discovery_family(W) if "pkce" not in x["id"] and "noMethods" not in x["id"]] + env_std(W) + debug_family(W)
     return sys_pipeline("C03", W, scen, None, ASSUME_SYS + ["callback and logout paths satisfy the trigger rules (documented precondition)",
                                                          "the browser follows every 302 and keeps cookies per RFC 6265 user-agent parsing"], replay=replay)
 
@@ -908,7 +927,7 @@ def c04(W, replay=None):
     if not replay:
         design_mc(W, "c04-design", ["ExchangeBound", "TokensFromOwnLogin"], Kinds='{"app","callback"}', MaxCode=3 if W.tier == "thorough" else 2)
         scen = family(W, "C04") + attacker_family(W, 600 if W.tier == "thorough" else 150) + parallel_family(W, 400 if W.tier == "thorough" else 40)
-        scen += family(W, "C18", "quick") + same_client_family(W) + discovery_family(W) + dup_chain_family(W) + shared_callback_family(W) + decoy_family(W) + secret_rotation_family(W)
+        scen += family(W, "C18", "quick") + same_client_family(W) + discovery_family(W) + dup_chain_family(W) + shared_callback_family(W) + decoy_family(W) + secret_rotation_family(W) + env_std(W) + debug_family(W)
     return sys_pipeline("C04", W, scen, None, ASSUME_SYS + ["the simulated token endpoint logs exactly what it was sent and is strict (RFC 6749/7636)"], replay=replay)
 
 
@@ -940,7 +959,7 @@ def c05(W, replay=None):
     if not replay:
         design_mc(W, "c05-design", ["TokensOnlyUnderIssued"])
         fam = family(W, "C05")
-        scen = fam + c05_fault_sweep(fam) + replica_family(W) + env_std(W) + attacker_family(W, 400 if W.tier == "thorough" else 80) + decoy_family(W) + parallel_family(W, 200 if W.tier == "thorough" else 20)
+        scen = fam + c05_fault_sweep(fam) + replica_family(W) + env_std(W) + debug_family(W) + attacker_family(W, 400 if W.tier == "thorough" else 80) + decoy_family(W) + parallel_family(W, 200 if W.tier == "thorough" else 20)
         if W.tier == "thorough":
             scen += random_histories(W, 500)
     return sys_pipeline("C05", W, scen, None, ASSUME_SYS, replay=replay)
@@ -956,7 +975,7 @@ def c11(W, replay=None):
                     Checks="{1,2,3,4,5}", MaxSid=4, MaxTok=5, TokLife=1, Kinds='{"app"}')
         ms = sample(W, [m for m in ms if any(s.get("ans") == "badToken" for s in m["steps"])], 1000 if W.tier == "thorough" else 80)
         scen += [conv(m, "c11/race/%d" % i, 1, store=("memory", "redis")[i % 2], probes=finish_all(m) + [PROBE_APP]) for i, m in enumerate(ms)]
-        scen += replica_family(W) + env_std(W)
+        scen += replica_family(W) + env_std(W) + debug_family(W)
         # every single fault position on the refresh path (store calls, provider, key lookup; Redis: single commands)
         ms = export(W, "c11-faults", Prepared='"expired"', Target=1, MaxApps=1, MaxFaults=2 if W.tier == "thorough" else 1, Checks="{1,2,3,4}", MaxSid=3, MaxTok=4)
         for stname in ("memory", "redis"):
@@ -996,7 +1015,7 @@ def c13_histories(W):
 def c13(W, replay=None):
     W.build()
     # (the C05 family brings the histories: a login abandoned half-way, a stale or foreign cookie, then a login that completes)
-    scen = [] if replay else family(W, "C13") + discovery_family(W) + parallel_family(W, 200 if W.tier == "thorough" else 20) + c13_histories(W) + family(W, "C05", "quick") + env_std(W)
+    scen = [] if replay else family(W, "C13") + discovery_family(W) + parallel_family(W, 200 if W.tier == "thorough" else 20) + c13_histories(W) + family(W, "C05", "quick") + env_std(W) + debug_family(W)
     return sys_pipeline("C13", W, scen, None, ASSUME_SYS + ["Location values are parsed with net/url, independently of how the service assembled them"], replay=replay)
 
 
@@ -1009,7 +1028,7 @@ def c14(W, replay=None):
             ms = export(W, "c14-%s" % prep, Prepared='"%s"' % prep, Target=1, MaxFaults=2 if W.tier == "thorough" else 1, Checks="{1,2,3,4}", MaxSid=3, MaxTok=4, **kw)
             scen += [conv(m, "c14/%s/%d" % (prep, i), 1, store=("memory", "redis")[i % 2], probes=finish_all(m) + [PROBE_APP]) for i, m in enumerate(ms)]
         scen += random_histories(W, 500 if W.tier == "thorough" else 50, faults=True)
-        scen += after_deny_family(W) + discovery_family(W) + parallel_family(W, 100 if W.tier == "thorough" else 10) + secret_rotation_family(W) + env_std(W)
+        scen += after_deny_family(W) + discovery_family(W) + parallel_family(W, 100 if W.tier == "thorough" else 10) + secret_rotation_family(W) + env_std(W) + debug_family(W)
     return sys_pipeline("C14", W, scen, None, ASSUME_SYS + ["every secret is a unique marker; an occurrence raw, percent-, base64-, base64url- or hex-encoded is detected"], replay=replay)
 
 
@@ -1017,7 +1036,7 @@ def c15(W, replay=None):
     W.build()
     scen = []
     if not replay:
-        scen = family(W, "C15") + discovery_family(W) + after_deny_family(W) + hammer_family(W) + env_std(W)
+        scen = family(W, "C15") + discovery_family(W) + after_deny_family(W) + hammer_family(W) + env_std(W) + debug_family(W)
         if W.tier == "thorough":
             scen += random_histories(W, 500, faults=True)
     return sys_pipeline("C15", W, scen, None, ["a panic is recovered by the harness around ExtAuthZFilter.Check and logged as an event no action of the specification accepts as well-formed"],
